@@ -24,6 +24,8 @@ mod c19;
 mod kindwire;
 mod c32;
 mod c33;
+mod c30;
+mod c31;
 mod gens;
 mod lang;
 mod vrlrun;
@@ -69,6 +71,8 @@ const EXECS: &[Exec] = &[
     c19::exec,
     c32::exec,
     c33::exec,
+    c30::exec,
+    c31::exec,
 ];
 
 /// Run one case (`op` + inputs) on the implementation: the first module that recognises the op answers.
@@ -114,6 +118,8 @@ fn generate(prop: &str, sink: &mut sink::Sink, rng: &mut rng::Rng, n: u64) -> bo
         "C19" => c19::generate(sink, rng, n),
         "C32" => c32::generate(sink, rng, n),
         "C33" => c33::generate(sink, rng, n),
+        "C30" => c30::generate(sink, rng, n),
+        "C31" => c31::generate(sink, rng, n),
         _ => return false,
     }
     true
